@@ -231,6 +231,7 @@ func checkC13(c *ctx) {
 	firstBadInput := ""
 	hazardOutcome := map[string]string{}
 	outcomes := map[string]int{}
+	staleRewritten := 0
 	for ci, cf := range cfgs {
 		if c.R.NumViolations() >= 8 {
 			break
@@ -316,6 +317,36 @@ func checkC13(c *ctx) {
 			args = append(args, "./"+p.Rel)
 			p.run = runTool(dir, cff, args...)
 		})
+		// Configurations 1 and 2 (source-map; base with -auto-instrument): the
+		// same invocations once more over a tree in which every output path
+		// already holds a longer file (the output of "an earlier version of the
+		// source"). What is type-checked below is what the second round left.
+		if ci == 1 || ci == 2 {
+			filepath.Walk(dir, func(path string, info os.FileInfo, err error) error {
+				if err == nil && !info.IsDir() && (strings.HasSuffix(path, "_gen.go") || strings.HasSuffix(path, "_gen_test.go")) {
+					if f, err := os.OpenFile(path, os.O_APPEND|os.O_WRONLY, 0); err == nil {
+						f.WriteString("\n// tail of an earlier, longer output\nfunc staleTail() { staleTail() }\n" + strings.Repeat("// padding padding padding padding\n", 40))
+						f.Close()
+						staleRewritten++
+					}
+				}
+				return nil
+			})
+			parallel(len(pkgs), func(i int) {
+				p := pkgs[i]
+				if p.inputBad || (together && p.Kind != "hazard") {
+					return
+				}
+				args := []string{"-genmode", cf.mode}
+				if cf.auto {
+					args = append(args, "-auto-instrument")
+				}
+				args = append(args, "./"+p.Rel)
+				if tr := runTool(dir, cff, args...); tr.Exit != p.run.Exit {
+					p.run = tr // judged below like a first run
+				}
+			})
+		}
 		// Type-check every output without the cff tag, in one go.
 		buildOut, _ := vc.Run(dir, vc.Env(), "go", "vet", "-framepointer", "./g/...", "./s/...", "./h/...")
 		compileErr := map[string]string{}
@@ -432,6 +463,7 @@ func checkC13(c *ctx) {
 		"outcomes":                          outcomes,
 		"inputs_discarded_not_type_correct": discarded,
 		"hazard_outcomes_base_mode":         hazardOutcome,
+		"outputs_regenerated_over_a_longer_stale_file": staleRewritten,
 	}
 	writeEvidence(c, cov, []string{"inputs that do not type-check under the cff tag are generator bugs and are discarded (counted)", "residual-directive scan resolves the cff package through the file's import names"})
 }
